@@ -240,6 +240,49 @@ def run(R):
     run_keys(R)
 
 
+class RemapRules:
+    """a Run seen through another rule id: lets a property that leans on C16.float (DISTINCT, join keys) re-decide it under its own name"""
+
+    def __init__(self, R, frm, to):
+        self._R, self._frm, self._to = R, frm, to
+
+    def _m(self, rid):
+        return self._to if rid == self._frm else rid
+
+    def __getattr__(self, name):
+        return getattr(self._R, name)
+
+    def rule(self, rid, desc):
+        return self._R.rule(self._m(rid), desc)
+
+    def ok(self, rid, *a, **k):
+        return self._R.ok(self._m(rid), *a, **k)
+
+    def violation(self, rid, *a, **k):
+        return self._R.violation(self._m(rid), *a, **k)
+
+    def floor(self, rid, n):
+        return self._R.floor(self._m(rid), n)
+
+
+def float_key_agreement(R, rid):
+    """Hash / Eq / Ord of the float-bearing key type(s) agree (one canonical key): decided under `rid` for the property that depends on it"""
+    P = R.prog
+    RR = RemapRules(R, "C16.float", rid)
+    RR.rule("C16.float", "the hand-written Eq / Ord / Hash of the REAL wrapper are built on one canonical key (equal values hash equally): "
+                         "hashed containers of value tuples (the DISTINCT set, join index, group keys) rely on it")
+    impls = {}
+    for im in P.impls:
+        if im["trait"] in CMP_TRAITS and im["self_adt"]:
+            impls.setdefault(im["self_adt"], {})[im["trait"].split("::")[-1]] = im
+    n = 0
+    for a in sorted(impls):
+        if a in P.adts and _direct_float(a, P) and any(not im["derived"] for im in impls[a].values()):
+            n += 1
+            _check_float_type(RR, P, a, impls[a], P.adts[a]["span"]["file"] + ":%d" % P.adts[a]["span"]["line"])
+    return n
+
+
 def _check_float_type(R, P, a, ims, loc):
     need = ("PartialEq", "Eq", "PartialOrd", "Ord", "Hash")
     for t in need:
